@@ -600,7 +600,46 @@ fn concat_limits(ctx: &Ctx) {
     }
 }
 
+/// Three-way overlaps of longer keys that agree in length, first and last word: declared K1, declared K2, computed K1 (in every order of the solutions).
+fn three_way(ctx: &Ctx) {
+    let leaf = |a: u8| Node { edge_start: u16::MAX, program_address: ca(a) };
+    let keys: Vec<Words> = vec![vec![5, 1, 5], vec![5, 2, 5], vec![5, 1, 5, 5], vec![5, 1, 6]];
+    for (ci, computed) in keys.iter().enumerate() {
+        for (ai, ka) in keys.iter().enumerate() {
+            for (bi, kb) in keys.iter().enumerate() {
+                if ka == kb {
+                    continue;
+                }
+                for perm in 0..6usize {
+                    let id = format!("three-way/{ci}/{ai}/{bi}/{perm}");
+                    if !ctx.want(&id) {
+                        continue;
+                    }
+                    let mut progs = BTreeMap::new();
+                    progs.insert(ca(1), bytes(data_output(computed, &[50])));
+                    progs.insert(ca(3), bytes(vec![push(1)]));
+                    let mut preds = BTreeMap::new();
+                    preds.insert(ca(0xA0), Predicate { nodes: vec![leaf(1)], edges: vec![] });
+                    preds.insert(ca(0xA1), Predicate { nodes: vec![leaf(3)], edges: vec![] });
+                    preds.insert(ca(0xA2), Predicate { nodes: vec![leaf(3)], edges: vec![] });
+                    let sols = [
+                        one_solution(ca(0xA0), ca(0xC0), vec![]),
+                        one_solution(ca(0xA1), ca(0xC0), vec![Mutation { key: ka.clone(), value: vec![70] }]),
+                        one_solution(ca(0xA2), ca(0xC0), vec![Mutation { key: kb.clone(), value: vec![71] }]),
+                    ];
+                    let order = [[0, 1, 2], [0, 2, 1], [1, 0, 2], [1, 2, 0], [2, 0, 1], [2, 1, 0]][perm];
+                    let solutions: Vec<Solution> = order.iter().map(|&i| sols[i].clone()).collect();
+                    let case = Case { pre: PreState::default(), set: SolutionSet { solutions }, preds, progs };
+                    run_case(ctx, &id, "a computed mutation never repeats a slot declared anywhere in the set (keys compared in full), in every order of three solutions",
+                        &case, || format!("computed key {:?}, declared keys {:?} and {:?}, order {:?}", computed, ka, kb, order));
+                }
+            }
+        }
+    }
+}
+
 pub fn run(ctx: &Ctx) {
+    three_way(ctx);
     concat_limits(ctx);
     sampled(ctx);
     long_ranges(ctx);
